@@ -132,8 +132,11 @@ func NewMux(lb *loadbalancer.LoadBalancer, cfg *config.Config, mc *metrics.Metri
 	if len(cfg.AdminAPI.IPAllowList) > 0 || len(cfg.AdminAPI.IPDenyList) > 0 {
 		ipFilter, err := NewIPFilter(cfg.AdminAPI.IPAllowList, cfg.AdminAPI.IPDenyList)
 		if err != nil {
-			logging.L().Error().Err(err).Msg("failed to create IP filter")
-			return mux
+			// Fail closed: a malformed list entry must never leave the Admin API unfiltered
+			logging.L().Error().Err(err).Msg("failed to create IP filter; admin api refuses all requests")
+			return http.HandlerFunc(func(w http.ResponseWriter, r *http.Request) {
+				http.Error(w, "Forbidden: admin api IP filter is misconfigured", http.StatusForbidden)
+			})
 		}
 		logging.L().Info().
 			Int("allow_list_size", len(cfg.AdminAPI.IPAllowList)).
